@@ -13,7 +13,7 @@ RULE = ("(face 0..11, polygon): triangles and star-shaped quadrilaterals/pentago
         "polygon edges split at seam rays and at the pentagon edge line, each piece densified (k=64 and 128 points), "
         "DodecahedronProjection.inverse, spherical area by an independent 3-D formula, Richardson extrapolation; compared with "
         "planar shoelace area * (4pi/12)/(5 r^2 tan36), r=(sqrt5-1)/2; tolerance 1e-6 relative, declared only if the "
-        "(64,128) and (128,256) estimates agree. Non-trivial = polygon crosses a seam or the face edge, or size<1e-3; "
+        "(64,128) and (128,256) estimates agree; when they disagree, the raw areas at n=64,128,256 must still decay (two of them over 2/n^2 = violation). Non-trivial = polygon crosses a seam or the face edge, or size<1e-3; "
         "distinct by hash.")
 ASSUMPTIONS = ["face-plane geometry (inradius (sqrt5-1)/2, seam rays every 36 degrees) is the published A5 face layout"]
 TOL = 1e-6
@@ -118,6 +118,15 @@ def judge(case, col):
         if abs(e2) > TOL and abs(e2 - e1) <= 0.2 * abs(e1):
             raise Violation("area_not_preserved", case, observed=f"relative error {e2:.3e} (n=128/256; {e1:.3e} at 64/128)", expected=f"|error| <= {TOL}")
         if abs(e2) > TOL:
+            # the extrapolated estimates disagree, so the boundary image is not a smooth curve sampled ever more finely.
+            # Fall back to the raw polygonal areas: for a piecewise smooth image their relative error decays like
+            # c/n^2 with c well below 2 for polygons of at most half a face width; a boundary point that is thrown
+            # somewhere else (a spike) leaves an error that does not decay.
+            raw = {n: sphere_area(densify(poly, k, n), face, case) / want - 1 for n in (64, 128, 256)}
+            over = [n for n, r in raw.items() if abs(r) > max(2.0 / (n * n), 10 * TOL)]
+            if len(over) >= 2:
+                raise Violation("area_not_preserved", case, observed="raw relative errors " + ", ".join(f"n={n}: {r:.3e}" for n, r in raw.items()) + " do not decay with n",
+                                expected="relative error <= 2/n^2 for n boundary points per piece")
             col.count("inconclusive")
             col.case(case, nontrivial=False, classes=("inconclusive",))
             return
